@@ -69,7 +69,7 @@ MUTANTS += [
 MUTANTS += [
     # ---- C08
     dict(id="c08-none-fails", property="C08", edits=[(P, "        if obj is None:\n            return True\n", "        if obj is None:\n            return False\n")]),
-    dict(id="c08-flatten-without-is-leaf", property="C08", edits=[(P, "leaves, structure = jtu.tree_flatten(obj, is_leaf=is_flatten_leaftype)", "leaves, structure = jtu.tree_flatten(obj)")]),
+    dict(id="c08-flatten-without-is-leaf", property="C08", edits=[(P, "leaves, structure = jtu.tree_flatten(obj, is_leaf=is_leaf)", "leaves, structure = jtu.tree_flatten(obj)")]),
     dict(id="c08-leaf-loop-first-only", property="C08", edits=[(P, "                if not is_check_leaftype(leaf):\n                    return False\n", "                if not is_check_leaftype(leaf):\n                    return False\n                break\n")]),
     dict(id="c08-flatten-mode-not-set", property="C08", edits=[(P, "        set_treeflatten_memo()\n", "        pass\n")]),
     dict(id="c08-pep604-unchecked", property="C08", edits=[("jaxtyping/_typeguard/__init__.py", "    elif sys.version_info >= (3, 10) and isinstance(expected_type, UnionType):", "    elif False:")]),
@@ -273,20 +273,22 @@ MUTANTS += [
 MUTANTS += [
     # ---- C12
     dict(id="c12-flatten-clear-not-in-finally", property="C12", edits=[(P, """        try:
-            leaves, structure = jtu.tree_flatten(obj, is_leaf=is_flatten_leaftype)
+            leaves, structure = jtu.tree_flatten(obj, is_leaf=is_leaf)
         finally:
             if not already_flattening:
-                clear_treeflatten_memo()""", """        leaves, structure = jtu.tree_flatten(obj, is_leaf=is_flatten_leaftype)
+                clear_treeflatten_memo()""", """        leaves, structure = jtu.tree_flatten(obj, is_leaf=is_leaf)
         if not already_flattening:
             clear_treeflatten_memo()""")]),
-    dict(id="c12-treepath-clear-not-in-finally", property="C12", edits=[(P, """        finally:
-            # Only clear what we set: an unstructured `PyTree[...]` nested inside a
-            # structured one must not wipe the outer PyTree's leaf position.
-            if cls.structure is not None:
-                clear_treepath_memo()
-        return True""", """        finally:
-            pass
-        return True""")]),
+    dict(id="c12-treepath-clear-not-in-finally", property="C12", edits=[(P, """                try:
+                    if not is_check_leaftype(leaf):
+                        return False
+                finally:
+                    # Exactly what we set, so that an enclosing structured PyTree
+                    # gets its own leaf position back.
+                    clear_treepath_memo()""", """                if not is_check_leaftype(leaf):
+                    clear_treepath_memo()
+                    return False
+                clear_treepath_memo()""")]),
     dict(id="c12-transparent-param-annotations-too", property="C12", edits=[(D, """                if hasattr(fn, "__annotations__") and "return" in fn.__annotations__:
                     modify_annotation(fn.__annotations__["return"])""", """                if hasattr(fn, "__annotations__"):
                     for _a in fn.__annotations__.values():
